@@ -175,6 +175,12 @@ def builder_spec(rnd, choice=None, kind=None):
     O["srv1"] = obj("Server", storage=["ref", "st3"], server_type=["s", "autoscaling"], ram=q(128, "GB"))
     O["video3"] = obj("VideoStreaming", server=["ref", "srv1"], bits_per_pixel=q(0.07, "dimensionless"), ram_buffer_per_user=q(20, "MB"),
                       static_delivery_cpu_cost=q(3.7, "cpu_core * s / GB"))
+    # ... and a streaming job of that service that no step calls yet (a draft that an edit can put into a step)
+    O["jvid3"] = obj("VideoStreamingJob", service=["ref", "video3"], resolution=["s", rnd.choice(RESOLUTIONS)], video_duration=q(25, "min"), refresh_rate=q(30, "1/s"))
+    if rnd.random() < 0.34:
+        # an on-premise cloud-instance server whose number of instances is given at construction
+        O["csrv"]["params"]["server_type"] = ["s", "on-premise"]
+        O["csrv"]["params"]["fixed_nb_of_instances"] = q(rnd.choice([2000, 5000]), "dimensionless")
     O["system"] = {"cls": "System", "params": {"usage_patterns": ["refs", ["up0", "up1", "up2"]]}}
     return {"objects": O, "system": "system"}
 
@@ -339,7 +345,14 @@ def builder_edit(rnd, spec):
     D = _data()
     O = spec["objects"]
     k = rnd.choice(["resolution", "refresh", "duration", "bpp", "technology", "use_case", "tokens", "model", "instance", "bits_per_param", "cpu_cost",
-                    "model", "instance", "technology", "job_service", "resolution2", "job_service"])
+                    "model", "instance", "technology", "job_service", "resolution2", "job_service", "attach_draft", "attach_draft"])
+    if k == "attach_draft" and "jvid3" in O:
+        # a service job that no step calls yet is put into a step whose other jobs run on other servers
+        steps = [st for st in ("s0", "s2") if st in O and "jvid3" not in O[st]["params"]["jobs"][1]]
+        if steps:
+            m = rnd.choice(["append", "iadd"])
+            return {"op": "list", "obj": rnd.choice(steps), "attr": "jobs", "method": m, "args": ["jvid3"] if m == "append" else [["jvid3"]],
+                    "kind": "builder_attach_draft"}
     S = lambda o, a, v: {"op": "set", "obj": o, "attr": a, "value": v, "kind": "builder_" + k}
     if k == "resolution": return S("jvid", "resolution", ["s", rnd.choice(RESOLUTIONS)])
     if k == "resolution2" and "jvid2" in O: return S("jvid2", "resolution", ["s", rnd.choice(RESOLUTIONS)])
